@@ -39,6 +39,10 @@ type Instance interface {
 	Close()
 }
 
+// StateAware is implemented by instances that want to know the model state they are in before each call
+// (e.g. to enumerate faults on fresh copies of that state).
+type StateAware interface{ SetState(*tla.Value) }
+
 // Adapter builds instances in a given initial model state.
 type Adapter interface {
 	Name() string
@@ -447,7 +451,10 @@ func (w *worker) process(jb *job) (replayed, skipped, changing int64, ok bool) {
 	if inst == nil {
 		return 0, int64(len(jb.trs)), 0, false
 	}
-	hist := w.hist(chain)
+	base := w.hist(chain)
+	hist := base
+	// calls applied on this instance since it was last rebuilt (self-loops): part of the real history
+	var since []string
 	alive := true
 	rebuild := func() {
 		// rebuild and verify: a construction that does not reproduce the model state (non-deterministic
@@ -460,6 +467,8 @@ func (w *worker) process(jb *job) (replayed, skipped, changing int64, ok bool) {
 				panic(err)
 			}
 			if d := inst.CheckState(&jb.state, nil, nil); len(d) == 0 {
+				since = nil
+				hist = base
 				return
 			}
 		}
@@ -469,6 +478,9 @@ func (w *worker) process(jb *job) (replayed, skipped, changing int64, ok bool) {
 	one := func(i int, expState *tla.Value) {
 		tr := &jb.trs[i]
 		call := &w.calls[i]
+		if sa, ok := inst.(StateAware); ok {
+			sa.SetState(&jb.state)
+		}
 		ex := Example{State: jb.state.Raw, History: hist, Call: call.Raw, Expected: trRaw(tr)}
 		if jb.init != nil {
 			ex.Init = jb.init.Raw
@@ -497,6 +509,9 @@ func (w *worker) process(jb *job) (replayed, skipped, changing int64, ok bool) {
 		replayed++
 		if len(divs) > 0 || inst.Dirty() {
 			rebuild()
+		} else if len(since) < 64 {
+			since = append(since, call.Raw)
+			hist = append(append(make([]string, 0, len(base)+len(since)), base...), since...)
 		}
 	}
 	var chg []int
